@@ -27,14 +27,16 @@ Proof. intros H Hd. unfold znth. destruct (nth_in_or_default (Z.to_nat i) l d) a
 Lemma find_free_slot_forall (P:slot -> Prop) r pgn src dst tp : P slot0 -> (forall s, P s -> P (free_slot s)) ->
   Forall P (r_slots r) -> Forall P (fst (find_free_slot r pgn src dst tp)).
 Proof.
-  intros H0 Hf H. unfold find_free_slot. destruct (ff_scan (r_slots r) pgn src dst tp 0 (nslots r) (now32 r)) as [[i oi] ot].
+  intros H0 Hf H. unfold find_free_slot. cbv zeta. destruct (ff_key (r_slots r) pgn src dst tp 0 <? nslots r); [cbn [fst]; auto|]. destruct (ff_scan (r_slots r) pgn src dst tp 0 (nslots r) (now32 r)) as [[i oi] ot].
   destruct ((i =? nslots r) && has_elapsed ot c_Max_N2kMsgBuf_Time (now32 r)); cbn [fst]; auto.
   apply Forall_zset; auto. apply Hf. apply Forall_znth; auto.
 Qed.
 
 Lemma find_free_slot_range r pgn src dst tp slots1 i : find_free_slot r pgn src dst tp = (slots1, i) -> 0 <= i /\ length slots1 = length (r_slots r).
 Proof.
-  intros FF. pose proof (ff_scan_spec pgn src dst tp (r_slots r) 0 (nslots r) (now32 r)) as S. unfold find_free_slot in FF.
+  intros FF. pose proof (ff_scan_spec pgn src dst tp (r_slots r) 0 (nslots r) (now32 r)) as S. unfold find_free_slot in FF. cbv zeta in FF.
+  pose proof (ff_key_range pgn src dst tp (r_slots r) 0) as KR.
+  destruct (ff_key (r_slots r) pgn src dst tp 0 <? nslots r); [injection FF as <- <-; split; [lia|reflexivity]|].
   destruct (ff_scan (r_slots r) pgn src dst tp 0 (nslots r) (now32 r)) as [[i' oi] ot].
   destruct ((i' =? nslots r) && has_elapsed ot c_Max_N2kMsgBuf_Time (now32 r)); injection FF as <- <-; rewrite ?zset_length; unfold nslots in *; split; auto; lia.
 Qed.
@@ -125,19 +127,36 @@ Qed.
 Lemma znth_zset_other {A} (l:list A) i j v d : 0 <= i -> 0 <= j -> j <> i -> znth (zset l i v) j d = znth l j d.
 Proof. intros. unfold znth, zset. apply nth_set_nth_neq. lia. Qed.
 
+Lemma ffcond_busy_key s pgn src dst :
+  negb (s_free s) && (s_pgn s =? pgn) && (s_src s =? src) && (s_dst s =? dst) && Bool.eqb (s_tp s) false = busy_key s pgn src dst.
+Proof. unfold busy_key, key_match. destruct (s_free s), (s_pgn s =? pgn), (s_src s =? src), (s_dst s =? dst), (s_tp s); reflexivity. Qed.
+Lemma ff_key_unique pgn src dst : forall slots i0 (i:nat),
+  (i < length slots)%nat -> (forall k, (k < i)%nat -> busy_key (nth k slots slot0) pgn src dst = false) ->
+  busy_key (nth i slots slot0) pgn src dst = true -> ff_key slots pgn src dst false i0 = i0 + Z.of_nat i.
+Proof.
+  induction slots as [|s slots IH]; intros i0 i Hi Hb Hm; cbn [length] in Hi; [lia|]. cbn [ff_key]. rewrite ffcond_busy_key.
+  destruct i as [|i].
+  - cbn [nth] in Hm. rewrite Hm. lia.
+  - pose proof (Hb 0%nat ltac:(lia)) as H0. cbn [nth] in H0. rewrite H0. rewrite (IH (i0 + 1) i); try lia. + intros k Hk. apply (Hb (S k)). lia. + exact Hm.
+Qed.
+
 Theorem supersede : supersede_stmt.
 Proof.
-  intros r f r1 ev idx i H Htp Hfast Hfirst Hknown FF Hi Hkey. cbv zeta.
+  intros r f r1 ev idx i H Htp Hfast Hfirst Hknown Hi Hkey Hbefore. cbv zeta.
+  assert (FF : find_free_slot r (fpgn f) (fsrc f) (fdst f) false = (r_slots r, Z.of_nat i)).
+  { unfold find_free_slot. cbv zeta. rewrite (ff_key_unique _ _ _ (r_slots r) 0 i Hi Hbefore Hkey). rewrite Z.add_0_l.
+    replace (Z.of_nat i <? nslots r) with true by (symmetry; apply Z.ltb_lt; unfold nslots; lia). reflexivity. }
   rewrite rx_frame_nontp in H by exact Htp. unfold rx_nontp in H. rewrite check_known_fields, Hfast in H. cbv zeta in H. rewrite Hknown in H.
   rewrite byte_fbyte, Hfirst in H. cbn [negb andb Z.eqb] in H. rewrite FF in H.
-  replace (i <? nslots r) with true in H by (symmetry; apply Z.ltb_lt; lia).
+  replace (Z.of_nat i <? nslots r) with true in H by (symmetry; apply Z.ltb_lt; unfold nslots; lia).
   rewrite mark_ready_eq in H. cbv zeta in H. rewrite get_slot_set_slot in H by (unfold nslots in *; cbn [r_slots with_slots]; lia). cbn [s_data s_len] in H.
   match type of H with (?a, _, ?c) = _ => set (AA := a) in H; set (CC := c) in H end; injection H as E1 E2 E3; subst r1 ev idx; subst AA CC.
-  rewrite get_slot_set_slot by (autorewrite with rxs; unfold nslots in *; cbn [r_slots with_slots]; lia).
+  autorewrite with rxs. cbn [r_slots with_slots]. rewrite zset_zset. unfold zset. rewrite Nat2Z.id.
+  rewrite nth_set_nth_eq by exact Hi.
   cbn [s_data s_len s_last s_pri s_free]. rewrite !byte_fbyte. rewrite (copy_buf_first 2) by lia.
   repeat split; auto using fpri_land.
   - unfold key_match. cbn [s_pgn s_src s_dst s_tp]. rewrite !Z.eqb_refl. reflexivity.
-  - intros j Hj Hne. unfold get_slot. autorewrite with rxs. cbn [r_slots with_slots]. rewrite zset_zset. apply znth_zset_other; lia.
+  - intros j Hne. apply nth_set_nth_neq. exact Hne.
 Qed.
 
 Theorem out_of_sequence_discards : out_of_sequence_discards_stmt.
